@@ -14,7 +14,7 @@ import (
 // R-KIND (C17): native Go functions - validation and conversion tables.
 
 func init() {
-	register("R-KIND", "native-function tables: (SETS) validNativeType, toNative and fromNative are explicit switches over reflect kinds accepting exactly the documented set (bool, all int/uint widths, float32/64, string, []byte); (TO) each toNative clause builds its value from the AWK conversion the documentation names (truth value for bool, number truncated for integer kinds, string form for string kinds) at the clause's own width and converts it to the declared parameter type; (FROM) each fromNative clause reads the result with the reflect accessor of its kind class (signed Int, unsigned Uint, Float, Bool, String, Bytes); (CHECK) checkNativeFunc rejects keyword names by comparing KeywordToken(name) with ILLEGAL, non-functions, every parameter (variadic element) and result not accepted by validNativeType, more than two results and a second result that is not error; (GUARD) reflection on a Funcs value (NumIn, In, IsVariadic, NumOut, Out) happens only after its kind has been tested to be Func or after checkNativeFunc validated it; (INDEX) both sides index native functions by the name-sorted key list of the same map, and setup verifies that each native function the program uses sits at its compiled index; (ARITY) the parse-time argument-count check dominates the indexing of parameter types", ruleKind)
+	register("R-KIND", "native-function tables, decided per reflect kind on the SSA form (comparisons of the subject's Kind()/NumOut() with constants are decided, impossible branches pruned, helpers that receive the subject entered): (SETS) validNativeType, toNative and fromNative, evaluated for every reflect kind, accept exactly the documented set (bool, all int/uint widths, float32/64, string, []byte), a slice only after the element kind was tested to be Uint8; (TO) for each kind toNative calls the AWK conversion the documentation names (truth value for bool, number for numeric kinds, string form for string kinds), converts the number to exactly the kind's width, and every value handed back passed through Convert(typ); (FROM) for each kind fromNative reads the result with the one reflect accessor of its kind class; (CHECK) in checkNativeFunc success is unreachable for a value whose kind is not Func, for more than two results, and once the passing edge of each validation test is cut (keyword name, validNativeType of the value result, second result exactly error, validNativeType of every parameter or of its element type under IsVariadic); (GUARD) reflection on a Funcs value happens only after its kind has been tested to be Func or after checkNativeFunc validated it, at every call site of a helper that does it; (INDEX) on both sides the index of a native function is its position in a slice that was sorted (also through a helper), and setup verifies that each native function the program uses sits at its compiled index; the per-native table is indexed by FuncInfo.Index only under a test of FuncInfo.Native and assigned only after every check has passed; (ARITY) the parse-time argument-count check dominates the indexing of parameter types", ruleKind)
 }
 
 var docKinds = []string{"Bool", "Int", "Int8", "Int16", "Int32", "Int64", "Uint", "Uint8", "Uint16", "Uint32", "Uint64", "Float32", "Float64", "String", "Slice"}
